@@ -18,6 +18,7 @@ func TestWorker(t *testing.T) {
 	if os.Getenv("VERIF_PROP") == "" {
 		t.Skip("run through /verif/check")
 	}
+	theT = t
 	c := wk.New()
 	f := registry[c.Prop]
 	if f == nil {
